@@ -39,7 +39,7 @@ theorem keepsBindings_fileRel : FileRel KeepsBindings where
     push := fun d key h p n hp => by simpa [lookupNs] using h p n hp
     pop := fun d h p n hp => by simpa [lookupNs] using h p n hp }
   refl _ _ := fun _ _ h => h
-  nodes d0 d x h _ := fun p n hp => by simpa [lookupNs] using h p n hp
+  nodes d0 d x h _ _ := fun p n hp => by simpa [lookupNs] using h p n hp
   messages d0 d x h := fun p n hp => by simpa [lookupNs] using h p n hp
   ports d0 d x h := fun p n hp => by simpa [lookupNs] using h p n hp
   bindings d0 d x h := fun p n hp => by simpa [lookupNs] using h p n hp
